@@ -4,6 +4,7 @@ package main
 
 import (
 	"fmt"
+	"os"
 	"go/ast"
 	"go/token"
 	"go/types"
@@ -640,7 +641,25 @@ func (fr *frame) lockOp(st *State, lockExpr ast.Expr, acquire bool, read bool) {
 	key := n.Obj().Pkg().Path() + "." + n.Obj().Name()
 	g, ok := fc.reg.guards[key]
 	if !ok || g.Lock != sel.Sel.Name {
-		fc.reg.assumptions["lock "+shortTypeName(ownerT)+"."+sel.Sel.Name+" has no `guarded` declaration: mutual exclusion not used"] = true
+		// no monitor declared: the lock can still be tracked as ghost typestate through
+		// `ghost at lock <field>: ...` / `ghost at unlock <field>: ...` clauses
+		what := "unlock " + sel.Sel.Name
+		if acquire {
+			what = "lock " + sel.Sel.Name
+		}
+		hooked := false
+		if fr.contract != nil {
+			for _, cl := range fr.contract.Clauses {
+				if cl.Kind == "ghost" && cl.Where == what {
+					hooked = true
+				}
+			}
+		}
+		if hooked {
+			fc.ghostHookStmt(st, fr, what)
+		} else {
+			fc.reg.assumptions["lock "+shortTypeName(ownerT)+"."+sel.Sel.Name+" has no `guarded` declaration: mutual exclusion not used"] = true
+		}
 		return
 	}
 	obj := fr.eval(st, sel.X)
@@ -719,6 +738,9 @@ func (fc *fctx) ghostHook(st *State, fr *frame, call *ast.CallExpr, name string,
 		return
 	}
 	ord := fr.callOrd[call]
+	if os.Getenv("GOVC_TRACE_HOOKS") != "" {
+		fmt.Fprintf(os.Stderr, "hook? %s call[%d] %s\n", fc.name, ord, name)
+	}
 	for _, cl := range fr.contract.Clauses {
 		if cl.Kind != "ghost" {
 			continue
